@@ -23,7 +23,7 @@ def _shape_feature(hist, idx):
 
 
 def _replay_chunk(args):
-    chunk, layouts = args
+    chunk, layouts, dedupe = args
     common.import_repo()
     import scikit_tt.tensor_train as tt_mod
     out = []
@@ -34,20 +34,20 @@ def _replay_chunk(args):
                 out.append((idx, cat + (':fortran-cores' if lay == 'F' else ''), msg, hist))
             try:
                 with common.watchdog():
-                    calls += pool.replay(tt_mod, hist, on_v, fortran=(lay == 'F'))
+                    calls += pool.replay(tt_mod, hist, on_v, fortran=(lay == 'F'), dedupe=dedupe)
             except common.CallTimeout as e:
                 on_v(len(hist) - 1, 'timeout', 'the replay of one history did not finish (%s)' % e)
     return calls, out
 
 
-def replay_all(cases, signature, rep, procs=None, layouts=('C',)):
+def replay_all(cases, signature, rep, procs=None, layouts=('C',), dedupe=False):
     """Replay all histories in parallel; report violations via rep.  Returns number of API calls."""
     procs = procs or int(__import__('os').environ.get('VERIF_PROCS', '16'))
     n = max(1, min(procs, len(cases) // 50 + 1))
     chunks = [cases[i::n] for i in range(n)]
     calls = 0
     with ProcessPoolExecutor(max_workers=n) as ex:
-        for c, out in ex.map(_replay_chunk, [(ch, layouts) for ch in chunks]):
+        for c, out in ex.map(_replay_chunk, [(ch, layouts, dedupe) for ch in chunks]):
             calls += c
             for idx, cat, msg, hist in out:
                 if cat.startswith('reject_note'):
@@ -90,7 +90,8 @@ def run(pid, tier, runs, assumptions, rule, signature=default_signature, extra_c
             ops.update(e['op'] for e in c if e['op'] != 'New')
         if cases:
             samples.append(_sample(cases[len(cases) // 2]))
-        calls += replay_all(cases, signature, rep, layouts=r.get('layouts', layouts))
+        calls += replay_all(cases, signature, rep, layouts=r.get('layouts', layouts),
+                            dedupe=any('rep' in kp for kp in r['constants'].get('KindPairs', ())))
     cov = dict(states=states, transitions=trans, traces_validated_against_impl=ncases,
                api_calls_replayed=calls, per_operation=dict(ops), samples=samples, rule=rule,
                exhaustive=True,
